@@ -97,7 +97,7 @@ fn run_line(line_no: u64, line: &Value, w: &mut TraceWriter, summ: &mut Vec<Valu
             }
             let b = exec::run_frag_instance(base + 1, &c, &kept);
             emit(w, &b);
-            let a_kept = RunResult { events: vec![], outcomes: kept_outcomes, stats: None, bytes: a.bytes.clone(), crashed: a.crashed };
+            let a_kept = RunResult { events: vec![], outcomes: kept_outcomes, stats: None, bytes: a.bytes.clone(), crashed: a.crashed, writes: vec![] };
             if !a.crashed && !b.crashed {
                 w.write(&pairs::pair_same(base, "filtered", "fragmented", &a_kept, &b, None));
             }
@@ -138,7 +138,7 @@ fn run_line(line_no: u64, line: &Value, w: &mut TraceWriter, summ: &mut Vec<Valu
             emit(w, &a);
             emit(w, &b);
             // compare: outcomes of the kept calls in H with the outcomes of H'
-            let a_kept = RunResult { events: vec![], outcomes: kept_outcomes, stats: a.stats, bytes: a.bytes.clone(), crashed: a.crashed };
+            let a_kept = RunResult { events: vec![], outcomes: kept_outcomes, stats: a.stats, bytes: a.bytes.clone(), crashed: a.crashed, writes: vec![] };
             if !a.crashed && !b.crashed {
                 w.write(&pairs::pair_same(base, "filtered", "history", &a_kept, &b, None));
             }
@@ -193,6 +193,152 @@ fn run_line(line_no: u64, line: &Value, w: &mut TraceWriter, summ: &mut Vec<Valu
     }
 }
 
+/// Fault enumeration for one history (C13).  Emits one instance per fault schedule.
+fn run_sink_line(line_no: u64, line: &Value, w: &mut TraceWriter, summ: &mut Vec<Value>) -> usize {
+    use muxide_verif_harness::exec::Resp;
+    let cfg = Cfg { json: line.get("cfg").cloned().unwrap_or(json!({})) };
+    let calls: Vec<Value> = line.get("calls").and_then(|c| c.as_array()).cloned().unwrap_or_default();
+    let mode = line.get("enum").and_then(|r| r.as_str()).unwrap_or("calls");
+    let clean = exec::run_instance(line_no * 100_000, &cfg, &calls, &RunOpts { project: false, ..RunOpts::default() });
+    let f = clean.bytes.clone();
+    let nwrites = clean.writes.len();
+    // fault schedules
+    let mut schedules: Vec<(Vec<Resp>, Option<Resp>, Vec<usize>, usize)> = Vec::new(); // script, after, cuts, chunk
+    let ok = Resp::Accept(usize::MAX);
+    if mode == "calls" {
+        let kinds: Vec<Resp> = vec![
+            Resp::Fail(std::io::ErrorKind::Other),
+            Resp::Fail(std::io::ErrorKind::BrokenPipe),
+            Resp::Fail(std::io::ErrorKind::WouldBlock),
+            Resp::Fail(std::io::ErrorKind::TimedOut),
+            Resp::Fail(std::io::ErrorKind::UnexpectedEof),
+            Resp::Zero,
+        ];
+        for wi in 0..nwrites {
+            for k in &kinds {
+                let mut sc = vec![ok.clone(); wi];
+                sc.push(k.clone());
+                // after the fault the sink keeps failing the same way
+                schedules.push((sc, Some(k.clone()), vec![], 0));
+            }
+            // interruptions and short writes at this call, everything else accepted
+            for reps in [1usize, 3] {
+                let mut sc = vec![ok.clone(); wi];
+                for _ in 0..reps {
+                    sc.push(Resp::Intr);
+                }
+                schedules.push((sc, None, vec![], 0));
+            }
+            let mut sc = vec![ok.clone(); wi];
+            sc.push(Resp::Accept(1));
+            schedules.push((sc, None, vec![], 0));
+            let offered = clean.writes[wi].0;
+            if offered >= 2 {
+                let mut sc = vec![ok.clone(); wi];
+                sc.push(Resp::Accept(offered - 1));
+                schedules.push((sc, None, vec![], 0));
+            }
+            // partial acceptance followed by an interruption of the remainder (and repetitions)
+            if offered >= 2 {
+                let mut sc = vec![ok.clone(); wi];
+                sc.push(Resp::Accept(1));
+                sc.push(Resp::Intr);
+                schedules.push((sc, None, vec![], 0));
+                let mut sc = vec![ok.clone(); wi];
+                sc.push(Resp::Accept(offered - 1));
+                sc.push(Resp::Intr);
+                sc.push(Resp::Intr);
+                schedules.push((sc, None, vec![], 0));
+                if offered >= 3 {
+                    let mut sc = vec![ok.clone(); wi];
+                    sc.extend([Resp::Accept(1), Resp::Intr, Resp::Accept(1), Resp::Intr, Resp::Accept(1)]);
+                    schedules.push((sc, None, vec![], 0));
+                    // partial acceptance followed by a failure
+                    let mut sc = vec![ok.clone(); wi];
+                    sc.push(Resp::Accept(1));
+                    sc.push(Resp::Fail(std::io::ErrorKind::Other));
+                    schedules.push((sc, Some(Resp::Fail(std::io::ErrorKind::Other)), vec![], 0));
+                }
+            }
+            // a fault that heals: fail once with Interrupted-like retry is covered; fail then accept:
+            let mut sc = vec![ok.clone(); wi];
+            sc.push(Resp::Fail(std::io::ErrorKind::Other));
+            schedules.push((sc, None, vec![], 0));
+        }
+        // seeded random schedules of shortening / interrupting responses (never failing), and with one failure
+        let seed = line.get("seed").and_then(|x| x.as_u64()).unwrap_or(1);
+        let mut x = seed.wrapping_mul(0x9E3779B97F4A7C15) ^ (line_no + 1);
+        let mut next = move || {
+            x ^= x << 13;
+            x ^= x >> 7;
+            x ^= x << 17;
+            x
+        };
+        let nrand = line.get("nrand").and_then(|x| x.as_u64()).unwrap_or(20) as usize;
+        for r in 0..nrand {
+            let mut sc = Vec::new();
+            for _ in 0..(4 * nwrites.max(1)) {
+                sc.push(match next() % 5 {
+                    0 => Resp::Intr,
+                    1 => Resp::Accept(1),
+                    2 => Resp::Accept(1 + (next() % 9) as usize),
+                    _ => ok.clone(),
+                });
+            }
+            if r % 4 == 3 {
+                let at = (next() as usize) % sc.len();
+                sc[at] = Resp::Fail(std::io::ErrorKind::Other);
+                sc.truncate(at + 1);
+                schedules.push((sc, Some(Resp::Zero), vec![], 0));
+            } else {
+                schedules.push((sc, None, vec![], 0));
+            }
+        }
+        schedules.push((vec![], None, vec![], 1)); // one byte at a time
+        schedules.push((vec![], None, vec![], 7));
+    } else {
+        // every byte offset as a short-write cut
+        for b in 1..f.len() {
+            schedules.push((vec![], None, vec![b], 0));
+        }
+    }
+    let mut n = 0;
+    for (k, (script, after, cuts, chunk)) in schedules.into_iter().enumerate() {
+        let id = line_no * 100_000 + 1 + k as u64;
+        let opts = RunOpts { script, after, cuts, sink_chunk: chunk, ..RunOpts::default() };
+        let r = exec::run_instance(id, &cfg, &calls, &opts);
+        // interleave: the sink writes of a call are logged just before the call's own event
+        let mut delivered = 0usize;
+        let mut widx = 0usize;
+        for e in &r.events {
+            let wa = e.get("wa").and_then(|x| x.as_u64()).unwrap_or(0) as usize;
+            while widx < wa.min(r.writes.len()) {
+                let (len, tag, acc) = &r.writes[widx];
+                delivered += acc;
+                let upto = delivered.min(r.bytes.len());
+                let common = r.bytes[..upto].iter().zip(f.iter()).take_while(|(x, y)| x == y).count();
+                let resp = if tag.starts_with("fail") { "fail" } else { tag.as_str() };
+                w.write(&json!({"ev": "sw", "i": id, "len": len, "resp": resp, "tag": tag, "acc": acc,
+                                "delivered": delivered, "common": common, "flen": f.len()}));
+                widx += 1;
+            }
+            let mut e2 = e.clone();
+            if e2.get("ev").and_then(|x| x.as_str()) == Some("fin") {
+                let m = e2.as_object_mut().unwrap();
+                m.insert("flen".into(), json!(f.len()));
+                m.insert("same_as_clean".into(), json!(r.bytes == f));
+            }
+            w.write(&e2);
+        }
+        if k == 0 {
+            summ.push(summarise(line_no, line, &r));
+        }
+        n += 1;
+    }
+    let _ = summ;
+    n
+}
+
 fn cmd_replay(args: &[String]) {
     let input = arg(args, "--in").expect("--in");
     let out = arg(args, "--out").expect("--out");
@@ -225,7 +371,11 @@ fn cmd_replay(args: &[String]) {
                         std::process::exit(2);
                     }
                 };
-                let n = run_line(k as u64, &v, &mut w, &mut summ);
+                let n = if v.get("enum").is_some() {
+                    run_sink_line(k as u64, &v, &mut w, &mut summ)
+                } else {
+                    run_line(k as u64, &v, &mut w, &mut summ)
+                };
                 ti.fetch_add(n, Ordering::Relaxed);
                 k += shards;
             }
